@@ -18,7 +18,7 @@ mod sut;
 use core::{Scenario, Tier};
 
 fn scenarios() -> Vec<&'static dyn Scenario> {
-    vec![&c20::C20Lib, &c20x::C20Fmt, &c20x::C20Cli, &c11::C11Threads, &c08::C08Images, &c17::C17Corrupt, &c12::C12Deliveries, &c12::C12Subsets, &c12::C12XmodEnumeral, &c12::C12XmodName, &c10::C10Faults]
+    vec![&c20::C20Lib, &c20x::C20Fmt, &c20x::C20Cli, &c20x::C20Macro, &c11::C11Threads, &c08::C08Images, &c17::C17Corrupt, &c12::C12Deliveries, &c12::C12Subsets, &c12::C12XmodEnumeral, &c12::C12XmodName, &c10::C10Faults]
 }
 
 fn meta(prop: &str) -> (&'static str, Vec<&'static str>, serde_json::Value) {
@@ -38,7 +38,7 @@ fn meta(prop: &str) -> (&'static str, Vec<&'static str>, serde_json::Value) {
                 "after a write-class hard fault the destination's content is unconstrained (fs::write truncates first; the property does not promise atomic replacement)",
                 "fmt scenario: rustfmt is a deterministic STUB (fake-rustfmt) whose failure mode comes from the plan; how the compiler maps rustfmt's exit codes is not judged, only that compile() delivers what compile_to_string() returns, that the text is the raw bindings or the stub's real output, that a healthy formatter is used and that both calls return",
                 "cli scenario: the real rasn_compiler_cli binary (built from /repo with --features cli, hooks off) runs as a child process under the same LD_PRELOAD seam; runs in which a directory-walk call was failed are only checked for not crashing",
-                "the asn1! macro is not run by this check (see DESIGN: macro scenario)",
+                "macro scenario: a capture proc-macro crate include!s /repo/rasn-compiler-derive/src/lib.rs, so the working tree's asn1! runs inside a real rustc (invoked directly, with a cleared environment so that no rustfmt is reachable); expansions are compared as canonical token text with the parse of compile_to_string() on the text the macro is documented to build (bare snippets wrapped in the `asn1` AUTOMATIC TAGS dummy module)",
             ],
             serde_json::json!({"components": components, "rule": "a case = (workload, fault plan): workload = generated module set x malformed variant x backend/config x delivery (literals/files) x builder path x output mode x destination state; every workload is run fault-free, then once per (call position of its recorded I/O trace x applicable fault kind), then with sampled double/triple faults. distinct = distinct (plan signature, I/O-trace signature) pairs; every run evaluates at least one oracle, so every run is non-trivial"}),
         ),
